@@ -105,18 +105,21 @@ def export(ctx, cfg, mode):
     return ops, scheds, info
 
 
-def judge_file(ctx, path):
-    """One TLC run of Trace_PtConc on `path`. Returns (accepted, stuck_index, distinct states, output)."""
-    args = ["-workers", "1", "-metadir", _meta(ctx, "j"), "-noGenerateSpecTE", "-config", "Trace_PtConc.cfg", "Trace_PtConc.tla"]
+def judge_file(ctx, path, diag=False):
+    """One TLC run of Trace_PtConc on `path`: every segment is judged independently.
+    Returns ([(reset index, furthest index)] of the rejected segments (1-based; furthest index only with
+    diag=True), distinct states, output)."""
+    args = ["-workers", "1", "-metadir", _meta(ctx, "j"), "-noGenerateSpecTE", "-config",
+            "Trace_PtConc_diag.cfg" if diag else "Trace_PtConc.cfg", "Trace_PtConc.tla"]
     r = C._java(args, C.SPEC, {"TRACE": path}, 3000, xmx="3g", xss="1g", deque=True)
     out = r.stdout
-    acc = re.search(r'<<\s*"ACCEPTED"', out) is not None
-    m = re.search(r'<<\s*"STUCK",\s*(\d+)', out)
-    if not acc and not m:
+    m = re.search(r'<<\s*"REJECTED",(.*?)>>\s*\n(?:Model checking|Finished|\s*$)', out, re.S)
+    if not re.search(r'<<\s*"CONSUMED"', out) or not m or "Error:" in out:
         C.log(out[-4000:])
-        raise C.ToolError("Trace_PtConc produced neither ACCEPTED nor STUCK on %s" % path)
+        raise C.ToolError("Trace_PtConc did not consume %s" % path)
+    rej = [(int(a), int(b)) for a, b in re.findall(r"<<\s*(\d+),\s*(\d+)\s*>>", m.group(1))]
     st = C._RE_STATES.findall(out)
-    return (acc and not m), (int(m.group(1)) if m else None), (int(st[-1][1]) if st else 0), out
+    return sorted(rej), (int(st[-1][1]) if st else 0), out
 
 
 def segments(rows):
@@ -125,40 +128,40 @@ def segments(rows):
     return [(s, (starts[k + 1] if k + 1 < len(starts) else len(rows))) for k, s in enumerate(starts)]
 
 
-def judge(ctx, path, max_rejects=6):
-    """Judge all segments of a trace file; after a rejected segment continue with the remaining ones.
-    Returns {"segments", "events", "states", "rejected": [{"rows": [...], "stuck": row, "reset": row}], "unjudged"}."""
+def judge(ctx, path):
+    """Judge all segments of a trace file (one defect does not hide the rest: TLC passes over a rejected
+    segment). Returns {"segments", "events", "states", "rejected": [{"rows", "stuck": first event no
+    explanation reaches, "reset"}]}."""
     rows = C.read_ndjson(path)
-    res = {"segments": 0, "events": len(rows), "states": 0, "rejected": [], "unjudged": 0}
-    cur, curpath, k = rows, path, 0
-    while cur:
-        ok, idx, states, _ = judge_file(ctx, curpath)
-        res["states"] += states
-        segs = segments(cur)
-        if ok:
-            res["segments"] += len(segs)
-            break
-        # idx = 1-based index of the first event no explanation reaches
-        i = idx - 1
-        which = None
-        for n, (a, b) in enumerate(segs):
-            if a <= i < b:
-                which = n
-        if which is None:
-            which = len(segs) - 1                      # idx = N + 1: the last segment is incomplete
-        elif i == segs[which][0] and which > 0:
-            which -= 1                                 # stuck AT a Reset: the previous segment is incomplete
-        a, b = segs[which]
-        stuck = cur[i] if i < len(cur) else {"e": "EOF"}
-        res["rejected"].append({"rows": cur[a:b], "stuck": stuck, "reset": cur[a]})
-        res["segments"] += which + 1
-        cur = cur[b:]
-        k += 1
-        if k >= max_rejects:
-            res["unjudged"] = len(segments(cur))
-            break
-        curpath = "%s.rest%d" % (path, k)
-        C.write_ndjson(curpath, cur)
+    rej, states, _ = judge_file(ctx, path)
+    segs = segments(rows)
+    end_of = {a: b for a, b in segs}
+    res = {"segments": len(segs), "events": len(rows), "states": states, "rejected": [], "unjudged": 0}
+    if not rej:
+        return res
+    # diagnosis pass on the rejected segments only: the first event that no explanation reaches
+    bad = []
+    for start, _ in rej[:60]:
+        bad += rows[start - 1:end_of[start - 1]]
+    dp = path + ".rejected"
+    C.write_ndjson(dp, bad)
+    drej, _, _ = judge_file(ctx, dp, diag=True)
+    dsegs = segments(bad)
+    dend = {a: b for a, b in dsegs}
+    far_of = {}
+    for start, far in drej:
+        far_of[[a for a, _ in dsegs].index(start - 1)] = (start - 1, far)
+    if len(drej) != len(dsegs):
+        raise C.ToolError("judge diagnosis pass disagrees with the first pass on %s" % path)
+    for n, (start, _) in enumerate(rej):
+        a = start - 1
+        seg_rows = rows[a:end_of[a]]
+        if n in far_of:
+            da, far = far_of[n]
+            stuck = bad[far - 1] if far - 1 < dend[da] else {"e": "EndOfSegment"}
+        else:
+            stuck = {"e": "undiagnosed"}
+        res["rejected"].append({"rows": seg_rows, "stuck": stuck, "reset": rows[a]})
     return res
 
 
@@ -443,10 +446,12 @@ def binding_demo(ctx, rows):
         bad = mutate(bad)
         p = ctx.path("corrupt_%s.ndjson" % re.sub(r"[^A-Za-z0-9]+", "_", name))
         C.write_ndjson(p, bad)
-        ok, idx, _, _ = judge_file(ctx, p)
-        if ok:
-            raise C.ToolError("binding demo failed: corrupted trace accepted (%s)" % name)
-        demos.append({"corruption": name, "rejected_at_event": idx, "event": stuck_summary(bad[idx - 1]) if idx - 1 < len(bad) else "EOF"})
+        rej, _, _ = judge_file(ctx, p, diag=True)
+        if len(rej) != 1:
+            raise C.ToolError("binding demo failed: corrupted trace: %d segments rejected, expected exactly the corrupted one (%s)" % (len(rej), name))
+        start, far = rej[0]
+        demos.append({"corruption": name, "rejected_segment_at_event": start, "first_unexplained_event": far,
+                      "event": stuck_summary(bad[far - 1]) if far - 1 < len(bad) else "EOF"})
 
     def seg_rows(bad, k):
         # rows of segment k and the following ones (the first matching event is corrupted)
